@@ -204,3 +204,34 @@ def F3(inp, N, n, ro=False):
     cl['role_term_unchanged'] = And(q.role == p.role, Eq(q.term, p.term))
     cl['applies_up_to_commit'] = Eq(q.applied, p.commit)
     return Res(cl, nontrivial=True, obs=lambda: dict(role=p.role, exc=show(exc), post_applied=show(q.applied)))
+
+
+@obligation('F4', props=('C20', 'C18'),
+            quick=[dict(N=N, obs=o) for N in (1, 2, 3, 4, 5) for o in (0, 2)] + [dict(N=3, obs=1, ro=True)],
+            thorough=[dict(N=N, obs=o) for N in (1, 2, 3, 4, 5) for o in (0, 1, 2, 3)] + [dict(N=N, obs=1, ro=True) for N in (1, 2, 3, 4)],
+            stubs=_STUBS, bounds='voters N<=5, observers<=3, one connected ex-member; connectivity of every peer is a case split (finite: enumeration, not solving)')
+def F4(inp, N, obs=0, ro=False):
+    """has-quorum indicator: true exactly when the connected voters (plus the node itself if it votes) are a strict
+    majority of the voters it knows; observers and connected non-members never count."""
+    o, tr, now = _mk(inp, N, ro)
+    voters = sorted(get(o, 'otherNodes'), key=lambda x: x.id)
+    cn = get(o, 'connectedNodes')
+    nconn = 0
+    for v in voters:
+        if inp.flag('conn_' + v.id):
+            cn.add(v)
+            nconn += 1
+    for i in range(obs):
+        if inp.flag('conn_r%d' % i):
+            r = Node('r%d' % i)
+            cn.add(r)
+            get(o, 'readonlyNodes').add(r)
+    if inp.flag('conn_exmember'):
+        cn.add(Node('zz'))
+    me = 0 if ro else 1
+    want = 2 * (nconn + me) > (len(voters) + me)
+    got, exc = guard(lambda: (o.hasQuorum, o.getStatus()['has_quorum']))
+    cl = {'no_exception': exc is None}
+    if exc is None:
+        cl['has_quorum_iff_majority_of_voters_connected'] = got[0] is want and got[1] is want
+    return Res(cl, nontrivial=True, obs=lambda: dict(N=N, ro=ro, connected_voters=nconn, connected=sorted(x.id for x in cn), got=show(got), want=want))
